@@ -26,7 +26,9 @@ PID = "C04"
 RULE = (
     "C04a: all G_acc programs with <= N nodes over snax_hwpe_mult / snax_alu / gemmini (several value patterns per setup so dedup leaves "
     "different partial setups) -> trace+dedup(+overlap) -> convert-accfg-to-csr; x all loop/branch vectors x all barrier poll answer sequences "
-    "(<=2 deviations, <=3 busy polls). C04b: accelerator x streamer-configuration menu. distinct = distinct (program, expected segments) / "
+    "(<=2 deviations, <=3 busy polls). C04b: accelerator x streamer-configuration menu. C04c: histories of 2-3 compilations in one process over "
+    "4 gemmx geometries / 4 ALU streamer configurations that declare the same accelerator name with different register maps (every ordered pair "
+    "A,B and triple A,B,A); each module must be lowered against its own declaration. distinct = distinct (program, expected segments) / "
     "distinct register maps; non-trivial = program has a partial (deduplicated) setup or a loop / map has >= 2 fields"
 )
 ASSUMPTIONS = [
@@ -90,7 +92,79 @@ def space(tier):
             for pl in ("accfg-trace-states,accfg-dedup", "accfg-trace-states,accfg-dedup,accfg-config-overlap", "accfg-trace-states"):
                 cases.append(("prog", acc, p, pl))
     cases += [("map", i) for i in range(len(map_space(tier)))]
+    # histories of compilations in ONE process: modules that declare the same accelerator name with different register maps, lowered one
+    # after the other (what snax-opt --split-input-file or a configuration sweep does); every ordered pair and every triple A,B,A
+    for fam in HIST_ALPHA:
+        for a in range(len(fam)):
+            for c in range(len(fam)):
+                if a != c:
+                    cases.append(("hist", (fam[a], fam[c])))
+                    cases.append(("hist", (fam[a], fam[c], fam[a])))
     return cases
+
+
+_B0 = (("n",), (4,), ())
+_B1 = (("n", "n"), (8,), ("a", "c", "b", "t"))
+_B2 = (("n",) * 6, (8, 4), ("b",))
+HIST_ALPHA = [
+    [("gemmx3", 8, 8, 8), ("gemmx3", 16, 16, 16), ("gemmx3", 4, 4, 4), ("gemmx3", 5, 5, 5)],
+    [("alu", (_B0, _B0, _B0)), ("alu", (_B1, _B1, _B1)), ("alu", (_B2, _B0, _B0)), ("alu", (_B0, _B0, _B2))],
+]
+_HIST_T = {}
+
+
+def hist_entry(spec):
+    """table entry (as in acc_table) for one member of a history alphabet, from the accelerator's own generate_acc_op()"""
+    if spec in _HIST_T:
+        return _HIST_T[spec]
+    op = build_acc(spec).generate_acc_op()
+    name = op.name_prop.root_reference.data
+    launch = tuple((n, str(1 + 2 * k), "i5") for k, n in enumerate(op.launch_field_names()))
+    _HIST_T[spec] = name, dict(
+        fields=op.field_names(),
+        launch=launch,
+        ft="i32",
+        decl="  " + common.to_text(op) + "\n",
+        addr={k: v.value.data for k, v in op.field_items()},
+        laddr={k: v.value.data for k, v in op.launch_field_items()},
+        barrier=op.barrier.value.data,
+        rocc=False,
+    )
+    return _HIST_T[spec]
+
+
+def eval_hist(r: CaseResult, hist):
+    obs = []
+    for pos, spec in enumerate(hist):
+        name, entry = hist_entry(spec)
+        T = dict(acc_table())
+        T[name] = entry
+        accs = dict(G.ACCS)
+        accs[name] = dict(fields=entry["fields"], launch=entry["launch"])
+        nf = len(entry["fields"])
+
+        def pat(*atoms):
+            return tuple(atoms[j % len(atoms)] for j in range(nf))
+
+        L = lambda *a: ("L", name, pat(*a))  # noqa: E731
+        for prog in ((L("x", "y"), L("y", "x", "x")), (L("x", "y"), ("FOR", (L("i", "y", "x"),)), L("y"))):
+            sub = CaseResult()
+            eval_prog(sub, name, prog, "accfg-trace-states,accfg-dedup", T=T, accs=accs)
+            r.states += sub.states
+            r.transitions += sub.transitions
+            r.validated += sub.validated
+            r.nontrivial = r.nontrivial or sub.nontrivial
+            obs.append(sub.obs)
+            if sub.rejected:
+                r.count("hist_member_rejected:" + str(sub.rejected))
+            for v in sub.violations:
+                # keyed by the history only: which member is lowered against a foreign declaration depends on what the process compiled
+                # before the history; that some member is does not
+                if not r.violations:
+                    r.violate(f"hist|{hist!r}", dict(kind="hist", hist=hist), f"compilation #{pos} of the history {hist!r} (one process) is not lowered against its own declaration: {v[2]}")
+                break
+    r.obs = ("hist", hist, tuple(map(repr, obs)))
+    r.sample = dict(kind="hist", history=repr(hist))
 
 
 def _nodes(prog):
@@ -235,10 +309,10 @@ def leftovers(mod):
     return None
 
 
-def eval_prog(r: CaseResult, acc, prog, pipeline, only=None):
-    T = acc_table()
+def eval_prog(r: CaseResult, acc, prog, pipeline, only=None, T=None, accs=None):
+    T = T or acc_table()
     info = T[acc]
-    text, nfor, nif = G.emit(prog, accs=G.ACCS, field_type=info["ft"], decls=info["decl"])
+    text, nfor, nif = G.emit(prog, accs=accs or G.ACCS, field_type=info["ft"], decls=info["decl"])
     try:
         pre = common.compile_text(text, pipeline)
     except common.Rejected as e:
@@ -509,10 +583,17 @@ def evaluate(case) -> CaseResult:
     if case[0] == "prog":
         eval_prog(r, case[1], case[2], case[3])
         r.count("cases_prog")
+    elif case[0] == "hist":
+        eval_hist(r, case[1])
+        r.count("cases_hist")
     else:
         eval_map(r, case[1])
         r.count("cases_map")
     return r
+
+
+def _tup(x):
+    return tuple(_tup(y) for y in x) if isinstance(x, (list, tuple)) else x
 
 
 def replay(case):
@@ -520,6 +601,8 @@ def replay(case):
     if case["kind"] == "prog":
         v = case.get("vector")
         eval_prog(r, case["acc"], G.from_json(case["prog"]), case["pipeline"], only=[[list(t) for t in v[0]], list(v[1])] if v else None)
+    elif case["kind"] == "hist":
+        eval_hist(r, _tup(case["hist"]))
     else:
         eval_map(r, case["idx"])
     return r.violations
